@@ -289,6 +289,12 @@ impl Property for C09 {
         let nontrivial = nontrivial.unwrap_or(false);
         stats.probe("dropout_mask_nontrivial", nontrivial);
 
+        for step in steps.iter() {
+            for t in step.params.iter() {
+                t.iter().for_each(|x| stats.observe(x.to_bits() as u64));
+            }
+            step.val_loss.iter().chain(step.val_acc.iter()).for_each(|x| stats.observe(x.to_bits() as u64));
+        }
         for (i, step) in steps.iter().enumerate() {
             // (a) flags
             if step.flags.iter().any(|f| *f) {
